@@ -54,6 +54,32 @@ func checkBigEndian8(c *Check, w *World, tb *TB, rule string, f *ssa.Function, v
 		}
 	}
 	if len(stores) == 0 {
+		// binary.BigEndian.AppendUint64(empty, v), returned: the eight big-endian bytes of v and nothing else
+		res := tb.Results(f, nil, nil, 0)
+		var apps []*Term
+		otherRes := false
+		for _, a := range res[0].Alts() {
+			switch {
+			case a.IsConst():
+			case a.Op == "call" && a.Sym == "(encoding/binary.bigEndian).AppendUint64" && len(a.Args) == 3:
+				apps = append(apps, a)
+			default:
+				otherRes = true
+			}
+		}
+		if len(apps) == 1 && !otherRes {
+			base, vT := apps[0].Args[1], apps[0].Args[2]
+			okBase := (base.Op == "makeslice" && base.Args[0].IsConst() && base.Args[0].Sym == "0") || (base.IsConst() && base.Sym == "nil") ||
+				(base.Op == "slice" && base.Args[0].Op == "alloc" && base.Args[2].IsConst() && base.Args[2].Sym == "0") // make([]byte, 0, 8)
+			ok := okBase && vMatch(vT)
+			c.Decide(ok, rule, fn, "big-endian-8", "binary.BigEndian.AppendUint64 of "+vDesc+" onto an empty slice, returned", "the 8-byte encoding is AppendUint64 of "+clip(vT.String(), 120)+" onto "+clip(base.String(), 80)+", not the big-endian bytes of "+vDesc+" alone", pos)
+			if ok {
+				return "big-endian-8(V)"
+			}
+			return "other:append"
+		}
+	}
+	if len(stores) == 0 {
 		// delegation: the result is G(V) with G a module function that is itself the big-endian-8 encoder of its argument
 		res := tb.Results(f, nil, nil, 0)
 		var calls []*Term
